@@ -71,6 +71,8 @@ def strategy(tier):
                 "dir": st.sampled_from(["random", "random", "random", "+z", "-z", "+x"]),
             })),
             # five-body chains without cse: the generated source has 10^8 characters and compiling it takes GBs
+            # edge ids need not start at 0: every non-initial edge shifted so that the final states are k..k+n-1 <= 9
+            "offset": st.sampled_from([0, 0, 0, 0, 10 - n, 10 - n, 1, 5 if n <= 4 else 2]),
             "cse": st.booleans() if n <= 4 else st.just(True),
             "seed": st.integers(0, 2**31 - 1),
         })
@@ -116,12 +118,15 @@ def _boost_to_lab(momenta, lab, seed):
     return out, gamma
 
 
-def build_topology(n, td):
+def build_topology(n, td, offset=0):
     t = make_topology(n, td["idx"], td["perm"])
     inter = intermediate_edges(t)
     mapping = {e: inter[td["renumber"][k]] for k, e in enumerate(inter) if e != inter[td["renumber"][k]]}
     if mapping:
         t = t.relabel_edges(mapping)
+    if offset:  # final states offset..offset+n-1 (single digits, as the naming scheme needs), intermediate edges after them
+        (init,) = t.incoming_edge_ids
+        t = t.relabel_edges({e: e + offset for e in sorted(t.edges, reverse=True) if e != init})
     return t
 
 
@@ -142,8 +147,9 @@ def run_case(desc) -> Result:  # noqa: C901, PLR0912, PLR0914, PLR0915
     n = desc["n"]
     topologies = []
     structures = set()
+    offset = int(desc.get("offset", 0))
     for td in desc["topos"]:
-        t = build_topology(n, td)
+        t = build_topology(n, td, offset)
         if t not in topologies:
             topologies.append(t)
         structures.add(frozenset(attached(t, e) for e in intermediate_edges(t)))
@@ -160,11 +166,13 @@ def run_case(desc) -> Result:  # noqa: C901, PLR0912, PLR0914, PLR0915
         labels.append("boosted")
     if desc["axis"]:
         labels.append("axis_aligned")
+    if offset:
+        labels.append(f"final_state_ids_from_{offset}")
     nontrivial = any(len(t.nodes) >= 2 for t in registered)
 
     expressions = under_test("create_expressions", adapter.create_expressions)
     fn = under_test("lambdify_kinematics", kinematics_function, expressions, None, desc["cse"])
-    final_masses = dict(enumerate(desc["masses"]))
+    final_masses = {i + offset: m for i, m in enumerate(desc["masses"])}
     total = (sum(desc["masses"]) + 0.01) * desc["total"]
     momenta = generate_events(topologies[0], final_masses, total, 16, desc["seed"], edge=desc["edge"], axis_aligned=desc["axis"])
     lab = desc.get("lab")
@@ -304,7 +312,7 @@ def run_case(desc) -> Result:  # noqa: C901, PLR0912, PLR0914, PLR0915
     # (c) three-body: polar helicity angle of the resonance decay = library's closed form (a statement about
     # the decay in the rest frame of the decaying particle: in a lab frame the helicity axis of the isobar is its
     # direction of flight *there*, which the Dalitz variables do not know)
-    if n == 3 and not lab:
+    if n == 3 and not lab and not offset:
         for topo in registered:
             for node in topo.nodes:
                 a, b = children_of(topo, node)
